@@ -177,8 +177,15 @@ def kinds_removed(F, root, depth=6):
         seen.add(f.id)
         rm = f.calls(r'NamedConceptMgmt::remove_cfg$|zero_copy_connection::ZeroCopy(PortRemover|Connection)::remove_(sender|receiver)$')
         if rm:
+            roles = sorted(set(m_.group(1) for m_ in (re.search(r'::remove_(sender|receiver)$', c_.callee) for c_ in rm) if m_))
             for c in f.calls(r'^iceoryx2::service::config_scheme::\w+_config$'):
-                out.setdefault(c.callee.split('::')[-1], c)
+                k_ = c.callee.split('::')[-1]
+                if roles and k_ == 'connection_config':
+                    # a connection has a sender side and a receiver side, each removed by its own call
+                    for r_ in roles:
+                        out.setdefault(k_ + '/' + r_, c)
+                else:
+                    out.setdefault(k_, c)
         if d >= depth:
             continue
         for c in F.closures_of(f, recursive=False):
@@ -202,8 +209,12 @@ def resource_kinds(F, R, cpr=None):
             continue
         cr = [c for c in f.calls(r'^iceoryx2_cal::.*Builder::create(_\w+)?$') if not c.macro]
         if cr:
-            created.setdefault(s.callee.split('::')[-1], (f, cr[0]))
-    R.floor('named-concept kinds created by ports', len(created), 4)
+            k_ = s.callee.split('::')[-1]
+            m_ = re.search(r'::create_(sender|receiver)$', cr[0].callee)
+            if m_ and k_ == 'connection_config':
+                k_ += '/' + m_.group(1)
+            created.setdefault(k_, (f, cr[0]))
+    R.floor('named-concept kinds created by ports', len(created), 5)
     routes = []
     rs = F.fn_opt('iceoryx2::service::stale_resource_cleanup::remove_stale_port_resources')
     if rs is None:
